@@ -715,17 +715,17 @@ Lemma A3 : PresA sendMigrationCompleteRspToCtrlPort.
 Proof.
   intros s H. inv_destruct H. unfold sendMigrationCompleteRspToCtrlPort.
   destruct (to_ctrl (pa s)) as [r|] eqn:Etc.
-  2:{ cbn. rewrite setp_pa_same. constructor; auto. }
+  2:{ cbn. rewrite setp_pa_same. rewrite <- Etc in irsp. constructor; auto. }
   destruct (phase_to_ctrl s r iphase Etc) as (Ecm & Eh & HN).
   assert (Hv : send_valid (MMigRsp r) = true).
   { assert (Hin : In (MMigRsp r) (map rsp_of (completed s))).
-    { rewrite <- irsp, Etc. cbn. repeat rewrite in_app_iff. cbn. tauto. }
+    { rewrite <- irsp. cbn. repeat rewrite in_app_iff. cbn. tauto. }
     apply in_map_iff in Hin. destruct Hin as (q & Eq & Hq). apply firstn_incl in Hq.
     rewrite Forall_forall in iwf. destruct (iwf q Hq) as (_ & _ & W1 & W2).
     inversion Eq; subst r. unfold send_valid; cbn. apply valid_neq; auto. }
   rewrite Hv. cbn [negb].
   destruct (can_push (ctl_out (pa s))) eqn:Ecp.
-  2:{ cbn. rewrite setp_pa_same. constructor; auto. }
+  2:{ cbn. rewrite setp_pa_same. rewrite <- Etc in irsp. constructor; auto. }
   cbn [fst].
   match goal with |- Inv ?s1 =>
     assert (Hnd : ndone s1 = ndone s) by (unfold ndone; cbn; rewrite Etc, app_length; cbn; lia);
@@ -733,5 +733,653 @@ Proof.
     assert (Hb : base s1 = base s) by (unfold base; rewrite Hc; reflexivity)
   end.
   constructor; try rewrite Hnd; try rewrite Hc; cbn; easy_fields.
+  - kinds iK.
+  - destruct iqueue as (w & E1 & E2). rewrite Ecm in E2. exists w. auto.
+  - rewrite <- irsp. cbn. rewrite ?app_nil_r. reflexivity.
+  - destruct HN as (T1 & T2 & T3 & Hnp & Hst). repeat split; try assumption.
+    intros a. rewrite Hb. apply Hst.
+Qed.
+
+Lemma A7 s : Inv s -> (handling (pa s) = false -> cur_mig (pa s) = None) ->
+  Inv (s <| pa := fst (processFromCtrlPort (pa s)) |>).
+Proof.
+  intros H Hq. inv_destruct H. unfold processFromCtrlPort.
+  destruct (handling (pa s)) eqn:Eh.
+  { cbn. rewrite setp_pa_same. constructor; auto. }
+  specialize (Hq eq_refl).
+  destruct iqueue as (w & Ew & Eq).
+  destruct w as [|r w].
+  { rewrite Ew. cbn. rewrite setp_pa_same. constructor; auto. exists []. auto. }
+  rewrite Ew. cbn [map fst].
+  constructor; cbn; easy_fields.
+  - kinds iK.
+  - exists w. split; [reflexivity|].
+    transitivity (olist (cur_mig (pa s)) ++ r :: w); [exact Eq|rewrite Hq; reflexivity].
+  - unfold Phase in *. cbn. rewrite Eh. rewrite Hq, Eh in iphase.
+    destruct (to_ctrl (pa s)); [tauto|]. exact iphase.
+Qed.
+
+Lemma A9 : PresA processPageMigrationReqFromCtrlPort.
+Proof.
+  intros s H. inv_destruct H. unfold processPageMigrationReqFromCtrlPort.
+  case_eq (cur_mig (pa s)); [intros r Ecm|intros Ecm].
+  2:{ cbn. rewrite setp_pa_same. constructor; auto. }
+  case_eq (handling (pa s)); intros Eh.
+  { cbn. rewrite setp_pa_same. constructor; auto. }
+  assert (HN : NoTok s /\ to_ctrl (pa s) = None).
+  { unfold Phase in iphase. rewrite Ecm, Eh in iphase. destruct (to_ctrl (pa s)); tauto. }
+  destruct HN as ((T1 & T2 & T3 & Hnp & Hst) & Etc).
+  assert (Hwf : wf_req r).
+  { destruct iqueue as (w & _ & Eq). rewrite Ecm in Eq. rewrite Forall_forall in iwf.
+    apply iwf. apply (skipn_incl (ndone s)). rewrite Eq. cbn. auto. }
+  destruct Hwf as (W1 & W2 & _).
+  destruct cfgA as (E1 & E2 & E3 & E4 & E5).
+  rewrite gen_pulls_spec, E1, E5, W1. cbn [fst].
+  match goal with |- Inv ?s1 =>
+    assert (P1 : Permutation (toks1 s1)
+       (map MPullReq (map (fun i => mkPullReq (ra, next_id (pa s) + N.of_nat i) ra rb
+                                      (mg_rd r + 64 * N.of_nat i) 64)
+                          (seq 0 (N.to_nat (nch r)))) ++ toks1 s))
+      by (unfold toks1, nch; cbn; perm)
+  end.
+  rewrite T1, app_nil_r in P1.
+  constructor; cbn; easy_fields.
+  - unfold cfg_is; cbn; auto.
+  - kinds iK.
+  - unfold Phase. cbn. rewrite Ecm, Etc. exists (next_id (pa s)).
+    eapply TF_perm; [symmetry; exact P1| | |apply TF_gen; exact Hst].
+    + rewrite <- T2. reflexivity.
+    + rewrite <- T3. reflexivity.
+Qed.
+
+Lemma phase_tf s : Phase s -> (toks1 s <> [] \/ toks2 s <> [] \/ toks3 s <> []) ->
+  exists r b, cur_mig (pa s) = Some r /\ handling (pa s) = true /\ to_ctrl (pa s) = None /\
+    TF r b (toks1 s) (toks2 s) (toks3 s) (idmap (pa s)) (num_pending (pa s)) (sta s) (base s).
+Proof.
+  unfold Phase. intros H Hne.
+  assert (HN : NoTok s -> False) by (intros (T1 & T2 & T3 & _); tauto).
+  destruct (cur_mig (pa s)) as [r|], (handling (pa s)), (to_ctrl (pa s)); try tauto.
+  destruct H as (b & H). eauto 10.
+Qed.
+
+Lemma A12 : PresA processDataPullRsp.
+Proof.
+  intros s H. inv_destruct H. unfold processDataPullRsp.
+  case_eq (is_nil (recv_data (pa s))); intros En.
+  { cbn. rewrite setp_pa_same. constructor; auto. }
+  destruct (phase_tf s iphase) as (r & b & Ecm & Eh & Etc & HT).
+  { left. unfold toks1. destruct (recv_data (pa s)); [discriminate|].
+    intros E. repeat (apply app_eq_nil in E; destruct E as [_ E]). discriminate. }
+  set (rest := map MPullReq (to_pull (pa s)) ++ rem_out (pa s) ++ net s ++ rem_in (pb s) ++
+    map MPullReq (cur_pull (pb s)) ++ map MRdReq (to_read (pb s)) ++ loc_out (pb s) ++ mqb s ++
+    mrb s ++ loc_in (pb s) ++ map MDReady (data_ready (pb s)) ++ map MPullRsp (to_rsp (pb s)) ++
+    rem_out (pb s) ++ rem_in (pa s)).
+  assert (P : Permutation (toks1 s) (map MPullRsp (recv_data (pa s)) ++ rest)) by (unfold toks1, rest; perm).
+  eapply TF_perm in HT; [|exact P|reflexivity|reflexivity].
+  apply TF_pull in HT. destruct HT as (ws & idm' & E & HT).
+  destruct cfgA as (E1 & E2 & E3 & E4 & E5).
+  rewrite E3, E4, E. cbn [fst].
+  constructor; cbn; easy_fields.
+  - unfold cfg_is; cbn; auto.
+  - kinds iK.
+  - unfold Phase. cbn. rewrite Ecm, Eh, Etc. exists b.
+    eapply TF_perm; [| | |exact HT].
+    + unfold toks1, rest; cbn. perm.
+    + unfold toks2; cbn. perm.
+    + reflexivity.
+Qed.
+
+Lemma A13 : PresA processWriteDoneRspFromMemCtrl.
+Proof.
+  intros s H. inv_destruct H. unfold processWriteDoneRspFromMemCtrl.
+  case_eq (recv_wdone (pa s)); [intros w Ew|intros Ew].
+  2:{ cbn. rewrite setp_pa_same. constructor; auto. }
+  destruct (phase_tf s iphase) as (r & b & Ecm & Eh & Etc & HT).
+  { right; right. unfold toks3. rewrite Ew. cbn.
+    intros E. repeat (apply app_eq_nil in E; destruct E as [_ E]). discriminate. }
+  assert (P3 : Permutation (toks3 s) (MWDone w :: (mra s ++ loc_in (pa s)))) by (unfold toks3; rewrite Ew; cbn; perm).
+  assert (Hpos : (num_pending (pa s) - 1 <? 0)%Z = false).
+  { destruct HT. apply Permutation_length in P3. cbn [length] in P3. apply Z.ltb_ge. lia. }
+  cbv zeta. rewrite Hpos.
+  destruct iqueue as (wt & Ewt & Eq). rewrite Ecm in Eq. cbn [olist app] in Eq.
+  destruct (skipn_cons_split _ _ _ _ Eq) as (S1 & S2 & S3).
+  assert (Hwf : wf_req r).
+  { rewrite Forall_forall in iwf. apply iwf. apply (skipn_incl (ndone s)). rewrite Eq. cbn. auto. }
+  destruct cfgA as (E1 & E2 & E3 & E4 & E5).
+  case_eq (num_pending (pa s) - 1 =? 0)%Z; intros Ez.
+  - rewrite Ecm. cbn [fst].
+    apply Z.eqb_eq in Ez.
+    destruct (TF_last r b _ _ _ _ _ _ _ _ _ (proj1 (proj2 Hwf)) P3 Ez HT) as (T1 & T2 & T3 & Hst).
+    apply app_eq_nil in T3. destruct T3 as (T3a & T3b).
+    match goal with |- Inv ?s1 =>
+      assert (Hnd : ndone s1 = S (ndone s)) by (unfold ndone; cbn; rewrite Etc; cbn; lia);
+      assert (Hc : completed s1 = completed s ++ [r]) by (unfold completed; rewrite Hnd; exact S1);
+      assert (Hb : base s1 = copy_req (base s) r) by (unfold base; rewrite Hc, fold_left_app; reflexivity)
+    end.
+    constructor; try rewrite Hnd; try rewrite Hc; cbn; easy_fields.
+    + unfold cfg_is; cbn; auto.
+    + kinds iK.
+    + exists wt. split; [exact Ewt|exact S2].
+    + rewrite map_app, <- irsp, Etc, E2. cbn. rewrite !app_nil_r, <- app_assoc. reflexivity.
+    + unfold Phase. cbn. rewrite Eh. unfold NoTok. rewrite Hb. cbn.
+      repeat split; try assumption.
+      unfold toks3; cbn. rewrite T3a, T3b. reflexivity.
+  - cbn [fst]. apply Z.eqb_neq in Ez.
+    constructor; cbn; easy_fields.
+    + unfold cfg_is; cbn; auto.
+    + kinds iK.
+    + exists wt. rewrite Ecm. auto.
+    + unfold Phase. cbn. rewrite Ecm, Eh, Etc. exists b.
+      eapply TF_perm; [reflexivity|reflexivity| |eapply TF_count; [exact P3|exact HT]].
+      unfold toks3; cbn. perm.
+Qed.
+
+(** ** A whole tick *)
+Definition notP1 (p : pmc) : Prop := handling p = false -> cur_mig p = None.
+Definition Q (p : pmc) : Prop := recv_wdone p = None /\ notP1 p.
+(** the invariant between events *)
+Definition Inv2 (s : sys) : Prop := Inv s /\ Q (pa s).
+
+Definition StepA (Pre Post : sys -> Prop) (f : pmc -> pmc * bool) : Prop :=
+  forall s, Pre s -> Post (s <| pa := fst (f (pa s)) |>).
+Definition StepB (Pre Post : sys -> Prop) (f : pmc -> pmc * bool) : Prop :=
+  forall s, Pre s -> Post (s <| pb := fst (f (pb s)) |>).
+
+Lemma set_pa_twice s p1 p2 : s <| pa := p1 |> <| pa := p2 |> = s <| pa := p2 |>.
+Proof. destruct s; reflexivity. Qed.
+Lemma set_pb_twice s p1 p2 : s <| pb := p1 |> <| pb := p2 |> = s <| pb := p2 |>.
+Proof. destruct s; reflexivity. Qed.
+
+Lemma andthen_A Pre Mid Post f g :
+  StepA Pre Mid f -> (forall s, Mid s -> crashed (pa s) = false) -> StepA Mid Post g ->
+  StepA Pre Post (andthen f g).
+Proof.
+  intros Hf Hc Hg s Hs. unfold andthen. specialize (Hf s Hs).
+  destruct (f (pa s)) as [p1 b1]. cbn [fst] in Hf.
+  pose proof (Hc _ Hf) as Hcr. cbn in Hcr. rewrite Hcr.
+  specialize (Hg _ Hf). cbn in Hg. destruct (g p1) as [p2 b2]. cbn [fst] in *.
+  rewrite set_pa_twice in Hg. exact Hg.
+Qed.
+Lemma andthen_B Pre Mid Post f g :
+  StepB Pre Mid f -> (forall s, Mid s -> crashed (pb s) = false) -> StepB Mid Post g ->
+  StepB Pre Post (andthen f g).
+Proof.
+  intros Hf Hc Hg s Hs. unfold andthen. specialize (Hf s Hs).
+  destruct (f (pb s)) as [p1 b1]. cbn [fst] in Hf.
+  pose proof (Hc _ Hf) as Hcr. cbn in Hcr. rewrite Hcr.
+  specialize (Hg _ Hf). cbn in Hg. destruct (g p1) as [p2 b2]. cbn [fst] in *.
+  rewrite set_pb_twice in Hg. exact Hg.
+Qed.
+
+Ltac crunch :=
+  repeat match goal with
+         | |- context [match ?x with _ => _ end] => destruct x eqn:?
+         end; cbn in *; try tauto; try congruence.
+
+Lemma keepQ1 p : Q p -> Q (fst (sendMigrationReqToAnotherPMC p)).
+Proof. unfold Q, notP1, sendMigrationReqToAnotherPMC. intros. crunch. Qed.
+Lemma keepQ2 p : Q p -> Q (fst (sendReadReqLocalMemPort p)).
+Proof. unfold Q, notP1, sendReadReqLocalMemPort. intros. crunch. Qed.
+Lemma keepQ3 p : Q p -> Q (fst (sendMigrationCompleteRspToCtrlPort p)).
+Proof. unfold Q, notP1, sendMigrationCompleteRspToCtrlPort. intros. crunch. Qed.
+Lemma keepQ4 p : Q p -> Q (fst (sendDataReadyRspToRequestingPMC p)).
+Proof. unfold Q, notP1, sendDataReadyRspToRequestingPMC. intros. crunch. Qed.
+Lemma keepQ5 p : Q p -> Q (fst (sendWriteReqLocalMemPort p)).
+Proof. unfold Q, notP1, sendWriteReqLocalMemPort. intros. crunch. Qed.
+Lemma keepQ6 p : Q p -> Q (fst (processFromOutside p)).
+Proof. unfold Q, notP1, processFromOutside. intros. crunch. Qed.
+Lemma keep7 p : Q p -> recv_wdone (fst (processFromCtrlPort p)) = None.
+Proof. unfold Q, notP1, processFromCtrlPort. intros. crunch. Qed.
+Lemma get9 p : notP1 (fst (processPageMigrationReqFromCtrlPort p)).
+Proof. unfold notP1, processPageMigrationReqFromCtrlPort. crunch. Qed.
+Lemma keep10 p : notP1 p -> notP1 (fst (processReadPageReqFromAnotherPMC p)).
+Proof. unfold notP1, processReadPageReqFromAnotherPMC. intros. crunch. Qed.
+Lemma keep11 p : notP1 p -> notP1 (fst (processDataReadyRspFromMemCtrl p)).
+Proof. unfold notP1, processDataReadyRspFromMemCtrl. intros. crunch. Qed.
+Lemma keep12 p : notP1 p -> notP1 (fst (processDataPullRsp p)).
+Proof. unfold notP1, processDataPullRsp. intros. crunch. Qed.
+Lemma get13 p : notP1 p -> Q (fst (processWriteDoneRspFromMemCtrl p)).
+Proof. unfold Q, notP1, processWriteDoneRspFromMemCtrl. intros. crunch. Qed.
+
+Lemma tick_A : StepA Inv2 Inv2 tick.
+Proof.
+  unfold tick, stages. cbn [fold_right].
+  pose (IW := fun s => Inv s /\ recv_wdone (pa s) = None).
+  pose (IN := fun s => Inv s /\ notP1 (pa s)).
+  assert (C2 : forall s, Inv2 s -> crashed (pa s) = false) by (intros s [H _]; apply H).
+  assert (CW : forall s, IW s -> crashed (pa s) = false) by (intros s [H _]; apply H).
+  assert (CN : forall s, IN s -> crashed (pa s) = false) by (intros s [H _]; apply H).
+  assert (CI : forall s, Inv s -> crashed (pa s) = false) by (intros s H; apply H).
+  apply (andthen_A Inv2 Inv2); [intros s [H HQ]; split; [apply A1; auto|cbn; apply keepQ1; auto]|exact C2|].
+  apply (andthen_A Inv2 Inv2); [intros s [H HQ]; split; [apply A2; auto|cbn; apply keepQ2; auto]|exact C2|].
+  apply (andthen_A Inv2 Inv2); [intros s [H HQ]; split; [apply A3; auto|cbn; apply keepQ3; auto]|exact C2|].
+  apply (andthen_A Inv2 Inv2); [intros s [H HQ]; split; [apply A4; auto|cbn; apply keepQ4; auto]|exact C2|].
+  apply (andthen_A Inv2 Inv2); [intros s [H HQ]; split; [apply A5; auto|cbn; apply keepQ5; auto]|exact C2|].
+  apply (andthen_A Inv2 Inv2); [intros s [H HQ]; split; [apply A6; auto|cbn; apply keepQ6; auto]|exact C2|].
+  apply (andthen_A Inv2 IW); [intros s [H HQ]; split; [apply A7; [auto|apply HQ]|cbn; apply keep7; auto]|exact CW|].
+  apply (andthen_A IW Inv); [intros s [H HQ]; apply A8; auto|exact CI|].
+  apply (andthen_A Inv IN); [intros s H; split; [apply A9; auto|cbn; apply get9]|exact CN|].
+  apply (andthen_A IN IN); [intros s [H HQ]; split; [apply A10; auto|cbn; apply keep10; auto]|exact CN|].
+  apply (andthen_A IN IN); [intros s [H HQ]; split; [apply A11; auto|cbn; apply keep11; auto]|exact CN|].
+  apply (andthen_A IN IN); [intros s [H HQ]; split; [apply A12; auto|cbn; apply keep12; auto]|exact CN|].
+  apply (andthen_A IN Inv2); [intros s [H HQ]; split; [apply A13; auto|cbn; apply get13; auto]|exact C2|].
+  intros s H. cbn. rewrite setp_pa_same. exact H.
+Qed.
+
+Lemma tick_B : StepB Inv2 Inv2 tick.
+Proof.
+  unfold tick, stages. cbn [fold_right].
+  assert (C2 : forall s, Inv2 s -> crashed (pb s) = false) by (intros s [H _]; apply H).
+  assert (L : forall f, PresB f -> StepB Inv2 Inv2 f).
+  { intros f Hf s [H HQ]. split; [apply Hf; auto|exact HQ]. }
+  repeat (apply (andthen_B Inv2 Inv2); [apply L; auto using B1, B2, B3, B4, B5, B6, B7, B8, B9, B10, B11, B12, B13|exact C2|]).
+  intros s H. cbn. rewrite setp_pb_same. exact H.
+Qed.
+
+(** ** Environment events *)
+Lemma nth_error_perm {T} (l : list T) : forall k m,
+  nth_error l k = Some m -> Permutation l (m :: remove_nth k l).
+Proof.
+  induction l as [|x l IH]; intros [|k] m H; cbn in *; try discriminate.
+  - inversion H; subst. reflexivity.
+  - apply IH in H. etransitivity; [apply perm_skip, H|]. apply perm_swap.
+Qed.
+Lemma Forall_remove_nth {T} (P : T -> Prop) (l : list T) : forall k,
+  Forall P l -> Forall P (remove_nth k l).
+Proof.
+  induction l as [|x l IH]; intros [|k] H; cbn; auto; inversion H; subst; auto.
+Qed.
+Lemma nth_error_Forall {T} (P : T -> Prop) (l : list T) k m :
+  Forall P l -> nth_error l k = Some m -> P m.
+Proof. intros H E. rewrite Forall_forall in H. apply H. eapply nth_error_In; eauto. Qed.
+Lemma read_ext st st' a n : (forall x, st x = st' x) -> read st a n = read st' a n.
+Proof. intros H. unfold read. apply map_ext. intros; apply H. Qed.
+
+Lemma step_unfold s e : Inv s -> step s e =
+  match e with
+  | ETick w =>
+    let '(p, pr) := tick (getp w s) in
+    (setp w p s, if crashed p then OCrash else OTick pr)
+  | ESendRemote w =>
+    match rem_out (getp w s) with
+    | [] => (s, OMsg None)
+    | m :: r => (setp w (getp w s <| rem_out := r |>) s <| net := net s ++ [m] |>, OMsg (Some m))
+    end
+  | EDeliverRemote k =>
+    match nth_error (net s) k with
+    | None => (s, OAcc false)
+    | Some m =>
+      let to (w : who) :=
+        if can_push (rem_in (getp w s))
+        then (setp w (getp w s <| rem_in := rem_in (getp w s) ++ [m] |>) s
+                <| net := remove_nth k (net s) |>, OAcc true)
+        else (s, OAcc false) in
+      if msg_dst m =? n_remote (pa s) then to PA
+      else if msg_dst m =? n_remote (pb s) then to PB
+      else (s, OAcc false)
+    end
+  | ESendLocal w =>
+    match loc_out (getp w s) with
+    | [] => (s, OMsg None)
+    | m :: r => (setmq w (getmq w s ++ [m]) (setp w (getp w s <| loc_out := r |>) s), OMsg (Some m))
+    end
+  | EMemServe w k =>
+    match nth_error (getmq w s) k with
+    | None => (s, OMsg None)
+    | Some m =>
+      match mem_serve (getst w s) m with
+      | None => (s, OMsg None)
+      | Some (st', rsp) =>
+        (setmr w (getmr w s ++ [rsp]) (setmq w (remove_nth k (getmq w s)) (setst w st' s)),
+         OMsg (Some rsp))
+      end
+    end
+  | EDeliverLocal w k =>
+    match nth_error (getmr w s) k with
+    | None => (s, OAcc false)
+    | Some m =>
+      if can_push (loc_in (getp w s))
+      then (setmr w (remove_nth k (getmr w s))
+              (setp w (getp w s <| loc_in := loc_in (getp w s) ++ [m] |>) s), OAcc true)
+      else (s, OAcc false)
+    end
+  | ECtrlReq w m =>
+    if can_push (ctl_in (getp w s))
+    then (let s1 := setp w (getp w s <| ctl_in := ctl_in (getp w s) ++ [MMigReq m] |>) s in
+          match w with PA => s1 <| g_acc := g_acc s ++ [m] |> | PB => s1 end, OAcc true)
+    else (s, OAcc false)
+  | ETakeCtrl w =>
+    match ctl_out (getp w s) with
+    | [] => (s, OMsg None)
+    | m :: r =>
+      (let s1 := setp w (getp w s <| ctl_out := r |>) s in
+       match w with PA => s1 <| g_done := g_done s ++ [m] |> | PB => s1 end, OMsg (Some m))
+    end
+  | EInject m => (s <| net := net s ++ [m] |>, OAcc true)
+  end.
+Proof. intros H. unfold step. rewrite (i_crA _ H), (i_crB _ H). reflexivity. Qed.
+
+Lemma ev_send_remote_A s : Inv s -> Inv (fst (step s (ESendRemote PA))).
+Proof.
+  intros H. rewrite step_unfold by auto. inv_destruct H. cbn [getp setp].
+  destruct (rem_out (pa s)) as [|m r] eqn:E; [cbn; constructor; auto|]. cbn [fst].
+  assert (Hm : isPQ m) by (destruct iK; rewrite E in *; inversion k_roa0; auto).
+  constructor; cbn; easy_fields.
+  - kinds iK. fa_tail k_roa0 E. apply Forall_app; split; auto.
+  - phase_perm iphase. unfold toks1; cbn. rewrite E. perm.
+Qed.
+
+Lemma ev_send_remote_B s : Inv s -> Inv (fst (step s (ESendRemote PB))).
+Proof.
+  intros H. rewrite step_unfold by auto. inv_destruct H. cbn [getp setp].
+  destruct (rem_out (pb s)) as [|m r] eqn:E; [cbn; constructor; auto|]. cbn [fst].
+  assert (Hm : isPR m) by (destruct iK; rewrite E in *; inversion k_rob0; auto).
+  constructor; cbn; easy_fields.
+  - kinds iK. fa_tail k_rob0 E. apply Forall_app; split; auto.
+  - phase_perm iphase. unfold toks1; cbn. rewrite E. perm.
+Qed.
+
+Lemma ev_deliver_remote s k : Inv s -> Inv (fst (step s (EDeliverRemote k))).
+Proof.
+  intros H. rewrite step_unfold by auto. inv_destruct H.
+  destruct (nth_error (net s) k) as [m|] eqn:En; [|cbn; constructor; auto].
+  pose proof (nth_error_perm _ _ _ En) as Hp.
+  assert (Hin : In m (toks1 s)).
+  { unfold toks1. repeat rewrite in_app_iff. right; right; left. eapply nth_error_In; eauto. }
+  destruct (Phase_ok1 s m iphase Hin) as (r & b & Hok).
+  destruct cfgA as (EA1 & EA). destruct cfgB as (EB1 & EB).
+  assert (Hk : isPQ m \/ isPR m) by (destruct iK; eapply nth_error_Forall in k_net0; eauto).
+  cbv zeta. rewrite EA1, EB1.
+  destruct Hk as [(q & ->)|(q & ->)]; cbn in Hok; destruct Hok as (i & Hi & ->); cbn [msg_dst pq_dst pr_dst].
+  - replace (rb =? ra) with false by (symmetry; apply N.eqb_neq; auto).
+    rewrite N.eqb_refl. cbn [getp setp].
+    destruct (can_push (rem_in (pb s))); [|cbn; constructor; auto; split; auto].
+    cbn [fst]. constructor; cbn; easy_fields.
+    + unfold cfg_is; auto.
+    + unfold cfg_is; cbn; auto.
+    + kinds iK.
+      * apply Forall_app; split; auto. constructor; auto. eexists; eauto.
+      * apply Forall_remove_nth; auto.
+    + phase_perm iphase. unfold toks1; cbn. perm.
+  - rewrite N.eqb_refl. cbn [getp setp].
+    destruct (can_push (rem_in (pa s))); [|cbn; constructor; auto; split; auto].
+    cbn [fst]. constructor; cbn; easy_fields.
+    + unfold cfg_is; cbn; auto.
+    + unfold cfg_is; auto.
+    + kinds iK.
+      * apply Forall_app; split; auto. constructor; auto. eexists; eauto.
+      * apply Forall_remove_nth; auto.
+    + phase_perm iphase. unfold toks1; cbn. perm.
+Qed.
+
+Lemma ev_send_local_A s : Inv s -> Inv (fst (step s (ESendLocal PA))).
+Proof.
+  intros H. rewrite step_unfold by auto. inv_destruct H. cbn [getp setp getmq setmq].
+  destruct (loc_out (pa s)) as [|m r] eqn:E; [cbn; constructor; auto|]. cbn [fst].
+  assert (Hm : isWQ m) by (destruct iK; rewrite E in *; inversion k_loa0; auto).
+  constructor; cbn; easy_fields.
+  - kinds iK. fa_tail k_loa0 E. apply Forall_app; split; auto.
+  - phase_perm iphase. unfold toks2; cbn. rewrite E. perm.
+Qed.
+
+Lemma ev_send_local_B s : Inv s -> Inv (fst (step s (ESendLocal PB))).
+Proof.
+  intros H. rewrite step_unfold by auto. inv_destruct H. cbn [getp setp getmq setmq].
+  destruct (loc_out (pb s)) as [|m r] eqn:E; [cbn; constructor; auto|]. cbn [fst].
+  assert (Hm : isRQ m) by (destruct iK; rewrite E in *; inversion k_lob0; auto).
+  constructor; cbn; easy_fields.
+  - intros Hlt. apply ireq. unfold blen. rewrite E. rewrite app_length in Hlt. cbn [length] in *. lia.
+  - kinds iK. fa_tail k_lob0 E. apply Forall_app; split; auto.
+  - phase_perm iphase. unfold toks1; cbn. rewrite E. perm.
+Qed.
+
+Lemma ev_deliver_local_A s k : Inv s -> Inv (fst (step s (EDeliverLocal PA k))).
+Proof.
+  intros H. rewrite step_unfold by auto. inv_destruct H. cbn [getp setp getmr setmr].
+  destruct (nth_error (mra s) k) as [m|] eqn:En; [|cbn; constructor; auto].
+  pose proof (nth_error_perm _ _ _ En) as Hp.
+  assert (Hm : isWD m) by (destruct iK; eapply nth_error_Forall in k_mra0; eauto).
+  destruct (can_push (loc_in (pa s))); [|cbn; constructor; auto].
+  cbn [fst]. constructor; cbn; easy_fields.
+  - kinds iK. apply Forall_app; split; auto. apply Forall_remove_nth; auto.
+  - phase_perm iphase. unfold toks3; cbn. perm.
+Qed.
+
+Lemma ev_deliver_local_B s k : Inv s -> Inv (fst (step s (EDeliverLocal PB k))).
+Proof.
+  intros H. rewrite step_unfold by auto. inv_destruct H. cbn [getp setp getmr setmr].
+  destruct (nth_error (mrb s) k) as [m|] eqn:En; [|cbn; constructor; auto].
+  pose proof (nth_error_perm _ _ _ En) as Hp.
+  assert (Hm : isDR m) by (destruct iK; eapply nth_error_Forall in k_mrb0; eauto).
+  destruct (can_push (loc_in (pb s))); [|cbn; constructor; auto].
+  cbn [fst]. constructor; cbn; easy_fields.
+  - intros Hlt. apply ireq. unfold blen. apply Permutation_length in Hp.
+    rewrite app_length in Hlt. cbn [length] in *. lia.
+  - kinds iK. apply Forall_app; split; auto. apply Forall_remove_nth; auto.
+  - phase_perm iphase. unfold toks1; cbn. perm.
+Qed.
+
+Lemma ev_mem_serve_A s k : Inv s -> Inv (fst (step s (EMemServe PA k))).
+Proof.
+  intros H. rewrite step_unfold by auto. inv_destruct H. cbn [getp setp getmr setmr getmq setmq getst setst].
+  destruct (nth_error (mqa s) k) as [m|] eqn:En; [|cbn; constructor; auto].
+  pose proof (nth_error_perm _ _ _ En) as Hp.
+  assert (Hm : isWQ m) by (destruct iK; eapply nth_error_Forall in k_mqa0; eauto).
+  destruct Hm as (w & ->). cbn [mem_serve fst].
+  destruct (phase_tf s iphase) as (r & b & Ecm & Eh & Etc & HT).
+  { right; left. unfold toks2. intros E. repeat (apply app_eq_nil in E; destruct E as [_ E]).
+    rewrite E in En. destruct k; discriminate. }
+  assert (P2 : Permutation (toks2 s)
+            (MWrReq w :: (map MWrReq (write_reqs (pa s)) ++ loc_out (pa s) ++ remove_nth k (mqa s))))
+    by (unfold toks2; perm).
+  pose proof (TF_write r b _ _ _ _ w (MWDone (mkWDone (wq_dst w) (wq_src w))) _ _ _ _ P2 HT) as HT'.
+  constructor; cbn; easy_fields.
+  - kinds iK. apply Forall_remove_nth; auto.
+    apply Forall_app; split; auto. constructor; auto. eexists; eauto.
+  - unfold Phase. cbn. rewrite Ecm, Eh, Etc. exists b.
+    eapply TF_perm; [reflexivity|reflexivity| |exact HT'].
+    unfold toks3; cbn. perm.
+Qed.
+
+Lemma ev_mem_serve_B s k : Inv s -> Inv (fst (step s (EMemServe PB k))).
+Proof.
+  intros H. rewrite step_unfold by auto. inv_destruct H. cbn [getp setp getmr setmr getmq setmq getst setst].
+  destruct (nth_error (mqb s) k) as [m|] eqn:En; [|cbn; constructor; auto].
+  pose proof (nth_error_perm _ _ _ En) as Hp.
+  assert (Hm : isRQ m) by (destruct iK; eapply nth_error_Forall in k_mqb0; eauto).
+  destruct Hm as (q & ->). cbn [mem_serve fst].
+  constructor; cbn; easy_fields.
+  - intros Hlt. apply ireq. unfold blen in *. cbn in Hlt. apply Permutation_length in Hp.
+    rewrite app_length in Hlt. cbn [length] in *. lia.
+  - kinds iK. apply Forall_remove_nth; auto.
+    apply Forall_app; split; auto. constructor; auto. eexists; eauto.
+  - eapply (Phase_repl s _ [MRdReq q]
+              [MDReady (mkDReady (rq_dst q) (rq_src q) (rq_id q) (read (stb s) (rq_addr q) (rq_size q)))]
+              (map MPullReq (to_pull (pa s)) ++ rem_out (pa s) ++ net s ++ rem_in (pb s) ++
+               map MPullReq (cur_pull (pb s)) ++ map MRdReq (to_read (pb s)) ++ loc_out (pb s) ++
+               remove_nth k (mqb s) ++ mrb s ++ loc_in (pb s) ++ map MDReady (data_ready (pb s)) ++
+               map MPullRsp (to_rsp (pb s)) ++ rem_out (pb s) ++ rem_in (pa s) ++
+               map MPullRsp (recv_data (pa s))));
+      [reflexivity|reflexivity|reflexivity|reflexivity|reflexivity|intros; reflexivity|intros; reflexivity
+      | | | |reflexivity|reflexivity|exact iphase].
+    + unfold toks1. perm.
+    + unfold toks1; cbn. perm.
+    + intros r b. constructor; [|constructor]. split; [reflexivity|].
+      intros (i & Hi & ->). unfold okM. exists i. split; [exact Hi|]. split; [reflexivity|].
+      unfold chunk. cbn [dr_data rq_addr rq_size]. apply read_ext. exact istb.
+Qed.
+
+Lemma firstn_app_le {T} n (l1 l2 : list T) : (n <= length l1)%nat -> firstn n (l1 ++ l2) = firstn n l1.
+Proof.
+  intros H. rewrite firstn_app. replace (n - length l1)%nat with 0%nat by lia.
+  cbn. apply app_nil_r.
+Qed.
+Lemma skipn_app_le {T} n (l1 l2 : list T) : (n <= length l1)%nat -> skipn n (l1 ++ l2) = skipn n l1 ++ l2.
+Proof.
+  intros H. rewrite skipn_app. replace (n - length l1)%nat with 0%nat by lia. reflexivity.
+Qed.
+
+Lemma ev_ctrl_req s m : wf_req m -> Inv s -> Inv (fst (step s (ECtrlReq PA m))).
+Proof.
+  intros Hwf H. rewrite step_unfold by auto. inv_destruct H. cbn [getp setp].
+  destruct (can_push (ctl_in (pa s))); [|cbn; constructor; auto].
+  cbv zeta. cbn [fst].
+  match goal with |- Inv ?s1 =>
+    assert (Hnd : ndone s1 = ndone s) by reflexivity;
+    assert (Hc : completed s1 = completed s) by (unfold completed; rewrite Hnd; cbn; apply firstn_app_le; exact ind);
+    assert (Hb : base s1 = base s) by (unfold base; rewrite Hc; reflexivity)
+  end.
+  constructor; try rewrite Hnd; try rewrite Hc; cbn; easy_fields.
+  - kinds iK.
+  - destruct iqueue as (w & E1 & E2). exists (w ++ [m]). rewrite E1, map_app. split; [reflexivity|].
+    rewrite skipn_app_le by exact ind. rewrite E2, app_assoc. reflexivity.
+  - rewrite app_length. cbn. lia.
+  - apply Forall_app; split; auto.
+  - eapply Phase_perm; [..|exact iphase]; try reflexivity; try (intros; reflexivity).
+    intros a. rewrite Hb. reflexivity.
+Qed.
+
+Lemma ev_take_ctrl_A s : Inv s -> Inv (fst (step s (ETakeCtrl PA))).
+Proof.
+  intros H. rewrite step_unfold by auto. inv_destruct H. cbn [getp setp].
+  destruct (ctl_out (pa s)) as [|m r] eqn:E; [cbn; constructor; auto; rewrite E; auto|].
+  cbv zeta. cbn [fst].
+  match goal with |- Inv ?s1 =>
+    assert (Hnd : ndone s1 = ndone s) by (unfold ndone; cbn; rewrite E, app_length; cbn; lia);
+    assert (Hc : completed s1 = completed s) by (unfold completed; rewrite Hnd; reflexivity);
+    assert (Hb : base s1 = base s) by (unfold base; rewrite Hc; reflexivity)
+  end.
+  constructor; try rewrite Hnd; try rewrite Hc; cbn; easy_fields.
+  - kinds iK.
+  - rewrite <- irsp. rewrite <- app_assoc. reflexivity.
+  - eapply Phase_perm; [..|exact iphase]; try reflexivity; try (intros; reflexivity).
+    intros a. rewrite Hb. reflexivity.
+Qed.
+
+Lemma ev_take_ctrl_B s : Inv s -> Inv (fst (step s (ETakeCtrl PB))).
+Proof.
+  intros H. rewrite step_unfold by auto. cbn [getp setp].
+  destruct (i_B _ H) as (_ & _ & _ & _ & _ & _ & _ & _ & E). rewrite E. exact H.
+Qed.
+
+Lemma step_Q s e : Inv s -> (forall w, e <> ETick w) -> Q (pa s) -> Q (pa (fst (step s e))).
+Proof.
+  intros H Hne HQ. rewrite step_unfold by auto. unfold Q, notP1 in *.
+  destruct e as [w|w|k|w|w k|w k|w m|w|m]; [exfalso; eapply Hne; eauto|..];
+    try destruct w; cbv zeta; cbn [getp setp getmq setmq getmr setmr getst setst]; crunch.
+Qed.
+
+Lemma step_inv s e : ok_ev e -> Inv2 s -> Inv2 (fst (step s e)).
+Proof.
+  intros Hok [H HQ].
+  destruct e as [w|w|k|w|w k|w k|w m|w|m].
+  - rewrite step_unfold by auto. destruct w; cbn [getp setp].
+    + pose proof (tick_A s (conj H HQ)) as HT. destruct (tick (pa s)) as [p pr]. exact HT.
+    + pose proof (tick_B s (conj H HQ)) as HT. destruct (tick (pb s)) as [p pr]. exact HT.
+  - split; [|apply step_Q; auto; discriminate]. destruct w; [apply ev_send_remote_A|apply ev_send_remote_B]; auto.
+  - split; [|apply step_Q; auto; discriminate]. apply ev_deliver_remote; auto.
+  - split; [|apply step_Q; auto; discriminate]. destruct w; [apply ev_send_local_A|apply ev_send_local_B]; auto.
+  - split; [|apply step_Q; auto; discriminate]. destruct w; [apply ev_mem_serve_A|apply ev_mem_serve_B]; auto.
+  - split; [|apply step_Q; auto; discriminate]. destruct w; [apply ev_deliver_local_A|apply ev_deliver_local_B]; auto.
+  - split; [|apply step_Q; auto; discriminate]. destruct w; [apply ev_ctrl_req; auto|destruct Hok].
+  - split; [|apply step_Q; auto; discriminate]. destruct w; [apply ev_take_ctrl_A|apply ev_take_ctrl_B]; auto.
+  - destruct Hok.
+Qed.
+
+Lemma run_inv evs : forall s, Forall ok_ev evs -> Inv2 s -> Inv2 (run s evs).
+Proof.
+  induction evs as [|e evs IH]; intros s Hok H; [exact H|].
+  inversion Hok; subst. cbn. apply IH; auto. apply step_inv; auto.
+Qed.
+
+Lemma init_inv2 : Inv2 s_init.
+Proof. split; [apply init_inv|]. split; [reflexivity|intros _; reflexivity]. Qed.
+
+(** ** What the invariant says *)
+
+(** A's memory is exactly the result of the completed migrations, applied in
+    order, unless a migration is being transferred; then it may differ only
+    inside the destination range of that migration, byte by byte old or new. *)
+Lemma store_of_inv s : Inv s ->
+  (forall a, stb s a = sb0 a) /\
+  match cur_mig (pa s) with
+  | None => forall a, sta s a = base s a
+  | Some r => forall a, sta s a = base s a \/
+                        (mg_wr r <= a < mg_wr r + mg_size r /\ sta s a = sb0 (mg_rd r + (a - mg_wr r)))
+  end.
+Proof.
+  intros H. split; [apply H|]. pose proof (i_phase _ H) as Hp. unfold Phase in Hp.
+  destruct (cur_mig (pa s)) as [r|] eqn:Ecm.
+  - assert (Hwf : wf_req r).
+    { destruct (i_queue _ H) as (w & _ & Eq). rewrite Ecm in Eq.
+      pose proof (i_wf _ H) as Hw. rewrite Forall_forall in Hw.
+      apply Hw. apply (skipn_incl (ndone s)). rewrite Eq. cbn. auto. }
+    assert (Esz : mg_size r = 64 * nch r).
+    { destruct Hwf as (_ & Hm & _). unfold nch. pose proof (N.div_mod (mg_size r) 64). lia. }
+    destruct (handling (pa s)), (to_ctrl (pa s)); try tauto.
+    + destruct Hp as (b & HT). intros a. destruct (tf_st _ _ _ _ _ _ _ _ _ HT a) as [E|[E1 E2]]; auto.
+      right. split; [lia|auto].
+    + destruct Hp as (_ & _ & _ & _ & Hst). intros a. left. auto.
+  - destruct (handling (pa s)), (to_ctrl (pa s)); try tauto; apply Hp.
+Qed.
+
+Lemma copy_req_spec st r a :
+  (mg_wr r <= a < mg_wr r + mg_size r -> copy_req st r a = sb0 (mg_rd r + (a - mg_wr r))) /\
+  (a < mg_wr r \/ mg_wr r + mg_size r <= a -> copy_req st r a = st a).
+Proof.
+  unfold copy_req. split; intros H.
+  - destruct (mg_wr r <=? a) eqn:E1; [|apply N.leb_gt in E1; lia].
+    destruct (a <? mg_wr r + mg_size r) eqn:E2; [|apply N.ltb_ge in E2; lia]. reflexivity.
+  - destruct (mg_wr r <=? a) eqn:E1; cbn; auto.
+    destruct (a <? mg_wr r + mg_size r) eqn:E2; cbn; auto.
+    apply N.leb_le in E1. apply N.ltb_lt in E2. lia.
+Qed.
+
+Lemma reach evs : Forall ok_ev evs -> Inv (run s_init evs).
+Proof. intros H. apply (run_inv evs s_init H init_inv2). Qed.
+
+Lemma completion_once evs : Forall ok_ev evs ->
+  let s := run s_init evs in
+  g_done s ++ ctl_out (pa s) ++ map MMigRsp (olist (to_ctrl (pa s))) =
+    map (fun r => MMigRsp (mkMigRsp ca (mg_src r))) (completed s) /\
+  length (completed s) = ndone s /\ (ndone s <= length (g_acc s))%nat /\
+  ctl_out (pb s) = [].
+Proof.
+  intros Hok s. pose proof (reach evs Hok) as H. fold s in H.
+  split; [exact (i_rsp _ H)|]. split; [|split; [exact (i_nd _ H)|apply (i_B _ H)]].
+  unfold completed. apply firstn_length_le. exact (i_nd _ H).
+Qed.
+
+Lemma requests_queue evs : Forall ok_ev evs ->
+  let s := run s_init evs in
+  exists waiting,
+    ctl_in (pa s) = map MMigReq waiting /\
+    g_acc s = completed s ++ olist (cur_mig (pa s)) ++ waiting.
+Proof.
+  intros Hok s. pose proof (reach evs Hok) as H. fold s in H.
+  destruct (i_queue _ H) as (w & E1 & E2). exists w. split; [exact E1|].
+  rewrite <- E2. unfold completed. symmetry. apply firstn_skipn.
+Qed.
+
+Lemma one_page evs r : Forall ok_ev evs ->
+  let s := run s_init evs in
+  g_acc s = [r] -> ndone s = 1%nat ->
+  (forall a, mg_wr r <= a < mg_wr r + mg_size r -> sta s a = sb0 (mg_rd r + (a - mg_wr r))) /\
+  (forall a, a < mg_wr r \/ mg_wr r + mg_size r <= a -> sta s a = sa0 a) /\
+  (forall a, stb s a = sb0 a).
+Proof.
+  intros Hok s Hacc Hnd. pose proof (reach evs Hok) as H. fold s in H.
+  destruct (store_of_inv _ H) as [Hb Ha].
+  destruct (i_queue _ H) as (w & _ & E2). rewrite Hacc, Hnd in E2. cbn in E2.
+  destruct (cur_mig (pa s)); [discriminate|].
+  assert (Hbase : forall a, base s a = copy_req sa0 r a).
+  { intros a. unfold base, completed. rewrite Hacc, Hnd. reflexivity. }
+  repeat split; auto; intros a Hr; rewrite Ha, Hbase; apply copy_req_spec; auto.
+Qed.
 
 End Two.
+
+Lemma requester_overwritten p q rest :
+  rem_in p = MPullReq q :: rest ->
+  requester (fst (processFromOutside p)) = pq_src q.
+Proof. intros E. unfold processFromOutside. rewrite E. reflexivity. Qed.
